@@ -485,6 +485,10 @@ class SimSocket:
         ctx = w.ctx()
         if self.shut:
             return b""
+        if n < 0:
+            raise ValueError("sim: negative buffersize in recv")     # what a real socket says
+        if n == 0:
+            return b""
         if f is not None:
             kind = f["kind"]
             if kind == "eintr":
